@@ -44,6 +44,8 @@ struct case_cfg {
 	std::string uploads;
 	std::string events;        // filter event trace
 	std::string raw_seen;      // bytes handed to raw filter
+	std::string ready_data;    // bytes the reading filter got from file.data() in on_data_ready
+	std::string flags;
 	bool main_called_early;
 	case_cfg():filter(0),content_limit(0),multipart_limit(0),mem_limit(0),bufsize(65536),main_called_early(false){}
 };
@@ -62,6 +64,31 @@ struct mp_flt : public cppcms::http::multipart_filter {
 	void on_error() { g_case->events+="err,"; }
 };
 
+// a filter that inspects every part through file.data() in its callbacks (the way tests/filter_test.cpp and
+// the documentation do: seekg(0), stream data().rdbuf()) and leaves the read position where the read ended
+struct reading_flt : public mp_flt {
+	static std::string read_all(cppcms::http::file &f)
+	{
+		std::ostringstream ss;
+		f.data().seekg(0);
+		if(f.size()>0) ss << f.data().rdbuf();
+		return ss.str();
+	}
+	void on_upload_progress(cppcms::http::file &f)
+	{
+		std::string d=read_all(f);
+		if((long long)d.size()!=f.size()) g_case->flags+=" FILTER-SHORT-READ(progress:"+std::to_string(d.size())+"/"+std::to_string(f.size())+")";
+		mp_flt::on_upload_progress(f);
+	}
+	void on_data_ready(cppcms::http::file &f)
+	{
+		std::string d=read_all(f);
+		if((long long)d.size()!=f.size()) g_case->flags+=" FILTER-SHORT-READ(ready:"+std::to_string(d.size())+"/"+std::to_string(f.size())+")";
+		g_case->ready_data+=d;
+		mp_flt::on_data_ready(f);
+	}
+};
+
 class flt_app : public cppcms::application {
 public:
 	flt_app(cppcms::service &s):cppcms::application(s){}
@@ -76,6 +103,7 @@ public:
 			request().setbuf(g_case->bufsize);
 			if(g_case->filter==1) request().reset_content_filter(new raw_flt());
 			else if(g_case->filter==2) request().reset_content_filter(new mp_flt());
+			else if(g_case->filter==4) request().reset_content_filter(new reading_flt());
 		}
 	}
 };
@@ -279,6 +307,8 @@ static std::string c12_run_request(std::vector<std::string> const &w,std::string
 		if(flt!=3 && cl>0 && !cc.main_called_early) out<<" NO-EARLY-MAIN";
 		out<<" get "<<pairs_str(ctx->request().get());
 		out<<" | sizes "<<c12_strip(c->sizes)<<" raw "<<vh::hex(cc.raw_seen)<<" ev "<<c12_strip(cc.events);
+		out<<cc.flags;
+		if(flt==4 && state==1) out<<" rd "<<vh::hex(cc.ready_data);   // what the reading filter got out of file.data() in on_data_ready
 	}
 	int left=count_dir(tmp_ok);
 	if(left) out<<" TEMP-FILES-LEFT="<<left;
